@@ -5,10 +5,11 @@ package main
 import (
 	"encoding/json"
 	"math/rand"
+	"strconv"
 	"sync"
 
-	conf "github.com/alibaba/RedisShake/redis-shake/configure"
 	utils "github.com/alibaba/RedisShake/redis-shake/common"
+	conf "github.com/alibaba/RedisShake/redis-shake/configure"
 	"github.com/alibaba/RedisShake/redis-shake/dbSync/latencymonitor"
 	"github.com/alibaba/RedisShake/redis-shake/filter"
 	rcluster "github.com/vinllen/redis-go-cluster"
@@ -50,12 +51,16 @@ func slotRun(in []byte) (interface{}, error) {
 			"lmcrc": int(latencymonitor.VerifCrc16(string(k))), "lib": int(lib)})
 	}
 	nkeys := 0
+	var sample [][]byte // keys for the concurrent phase below
 	// every string up to MaxLen over { } a b : all brace layouts
 	alpha := []byte{'{', '}', 'a', 'b'}
 	var rec func(prefix []byte)
 	rec = func(prefix []byte) {
 		emitKey(prefix)
 		nkeys++
+		if nkeys%5 == 0 && len(sample) < 3000 {
+			sample = append(sample, append([]byte{}, prefix...))
+		}
 		if len(prefix) == cfg.MaxLen {
 			return
 		}
@@ -79,6 +84,39 @@ func slotRun(in []byte) (interface{}, error) {
 		}
 		emitKey(k)
 		nkeys++
+	}
+	// the same function from several goroutines at once (the restore workers of a full sync all call it): every answer that differs
+	// from the sequential one is reported as an observation of its own, which TLC then judges like any other
+	{
+		want := make([]uint16, len(sample))
+		for i, k := range sample {
+			want[i] = utils.KeyToSlot(string(k))
+		}
+		var cmu sync.Mutex
+		var cwg sync.WaitGroup
+		wrong := 0
+		for g := 0; g < 8; g++ {
+			cwg.Add(1)
+			go func(g int) {
+				defer cwg.Done()
+				r := rand.New(rand.NewSource(cfg.Seed + int64(g)))
+				for rep := 0; rep < 4; rep++ {
+					for _, i := range r.Perm(len(sample)) {
+						if got := utils.KeyToSlot(string(sample[i])); got != want[i] {
+							cmu.Lock()
+							if wrong < 50 {
+								lib, _ := rcluster.GetSlot(sample[i])
+								tr.Emit(tracer.Ev{"e": "slot", "k": bytesToInts(sample[i]), "slot": int(got), "concurrent": true,
+									"lmcrc": int(latencymonitor.VerifCrc16(string(sample[i]))), "lib": int(lib)})
+							}
+							wrong++
+							cmu.Unlock()
+						}
+					}
+				}
+			}(g)
+		}
+		cwg.Wait()
 	}
 	// slot ranges
 	type rg struct{ lo, hi int }
@@ -107,6 +145,24 @@ func slotRun(in []byte) (interface{}, error) {
 			ranges = append(ranges, rg{a, b})
 		}
 	}
+	// pairs of ranges whose decimal bounds concatenate to the same digits (1,234 / 12,34): whatever is remembered between two
+	// calls must not confuse them
+	for i := 0; i < 60+cfg.Ranges/5; i++ {
+		lo := rnd.Intn(16384)
+		hi := lo + rnd.Intn(16384-lo)
+		d := strconv.Itoa(lo) + strconv.Itoa(hi)
+		for k := 1; k < len(d); k++ {
+			if len(d[k:]) > 1 && d[k] == '0' {
+				continue
+			}
+			lo2, _ := strconv.Atoi(d[:k])
+			hi2, _ := strconv.Atoi(d[k:])
+			if lo2 <= hi2 && hi2 <= 16383 && (lo2 != lo || hi2 != hi) {
+				ranges = append(ranges, rg{lo, hi}, rg{lo2, hi2}, rg{lo, hi})
+			}
+		}
+	}
+	ranges = append(ranges, rg{1, 234}, rg{12, 34}, rg{2, 10922}, rg{210, 922}, rg{1, 234})
 	if cfg.AllSlots {
 		for s := 0; s < 16384; s++ {
 			ranges = append(ranges, rg{s, s})
